@@ -96,6 +96,9 @@ func (d *kvDriver[K]) probe() {
 	} else if x == 2 {
 		d.m.ReloadForeign()
 		return
+	} else if x == 3 {
+		d.m.Derive()
+		return
 	}
 	if d.m.Nav && d.m.A.Sorted && r.Intn(3) == 0 {
 		// navigation reads as part of the history (memoised extremes and
